@@ -38,7 +38,7 @@ pub fn handshake_reject(pat: Pat, psk_mask: u16, k: usize, fail_at: u32) {
     }
     let r = hs.read_message(&msg[..fixed + plen], &mut out[..cap]);
     kani::cover!(r == Err(snow::Error::Decrypt), "C19 handshake rejection reachable");
-    assert!(r == Err(snow::Error::Decrypt), "C19 harness: rejection expected");
+    assert!(r == Err(snow::Error::Decrypt), "C03: a message that the cipher rejects was accepted");
     assert!(out == before, "C19: the caller's payload buffer was modified by a handshake read that failed authentication");
 }
 
@@ -84,6 +84,6 @@ pub fn c19_q_transport_reject() {
         ts.read_message(&msg[..mlen], &mut out[..cap])
     };
     kani::cover!(r == Err(snow::Error::Decrypt), "C19 transport rejection reachable");
-    assert!(r == Err(snow::Error::Decrypt), "C19 harness: rejection expected");
+    assert!(r == Err(snow::Error::Decrypt), "C03: a message that the cipher rejects was accepted");
     assert!(out == before, "C19: the caller's payload buffer was modified by a transport read that failed authentication");
 }
